@@ -117,3 +117,11 @@ CORPUS += [
     Mut('c08-sampling-times-rounded-before-merging', 'torchtree/evolution/coalescent.py', '', "                node_heights[..., :taxa_count], return_counts=True, dim=-1\n",
         "                torch.round(node_heights[..., :taxa_count], decimals=6), return_counts=True, dim=-1\n", mode='text', expect=[('C08.T', 'coalescent::PiecewiseLinearCoalescentGrid.log_prob::')]),
 ]
+CORPUS += [
+    Mut('c08-intervals-kept-apart-by-a-floor', 'torchtree/evolution/coalescent.py', 'ConstantCoalescent.log_prob', 'durations = heights_sorted[..., 1:] - heights_sorted[..., :-1]',
+        'durations = (heights_sorted[..., 1:] - heights_sorted[..., :-1]).clamp(min=1e-07)', expect=[('C08.T', 'coalescent::ConstantCoalescent.log_prob::')]),
+    Mut('c08-growth-exponent-computed-in-place', 'torchtree/evolution/coalescent.py', '', "        height_growth_exp = torch.exp(heights_sorted * self.growth)\n",
+        "        height_growth_exp = heights_sorted.mul_(self.growth).exp_()\n", mode='text', expect=[('C08.T', 'no-in-place-update-of-a-value-read-later')]),
+    Mut('c08-benign-growth-exponent-through-a-local', 'torchtree/evolution/coalescent.py', '', "        height_growth_exp = torch.exp(heights_sorted * self.growth)\n",
+        "        exponent = heights_sorted * self.growth\n        height_growth_exp = torch.exp(exponent)\n", mode='text', benign=True),
+]
